@@ -137,6 +137,17 @@ func isoCorpus(e *ev.Env) {
 		{"delete-missing-then-get-missing", isoCase{Cfg: isoCfg{NoMW: true}, History: []wreq{
 			{Kind: "unrouted-DELETE", Raw: rawReq(reqSpec{Method: "DELETE", Target: "/missing"})}},
 			Probe: probeSpec{Route: -1, Class: ckNone, ViaEH: true, Variant: "eh-samepath", Raw: rawReq(reqSpec{Target: "/missing"})}}},
+		{"withinput-abandoned-then-redirect-with-input", isoCase{History: []wreq{
+			{Kind: "redirect-abandoned-with-input", Raw: rawReq(reqSpec{Method: "POST", Target: "/redirfail/h0?status=303&with=1&mode=return",
+				CType: "application/x-www-form-urlencoded", Body: []byte("user=alice&password=s3cret")})}},
+			Probe: probeSpec{Route: 4, Class: ckNone, Variant: "RI", Raw: rawReq(reqSpec{Method: "POST", Target: "/probeplain?variant=RI",
+				CType: "application/x-www-form-urlencoded", Body: []byte("name=PRBinput")})}}},
+		{"handler-fills-defaults-into-queries-map", isoCase{History: []wreq{
+			{Kind: "mutate-returned-values", Raw: rawReq(reqSpec{Target: "/mutate/h0"})}},
+			Probe: probeWith("/probeplain", ckNone, nil)}},
+		{"adaptor-locals-then-probe", isoCase{Adaptor: true, History: []wreq{
+			{Kind: "locals", Raw: rawReq(reqSpec{Target: "/locals/alice"})}},
+			Probe: probeWith("/probeplain", ckNone, nil)}},
 		{"server-error-path-then-probe", isoCase{History: []wreq{
 			{Kind: "locals", Cookie: ckValid, Raw: rawReq(reqSpec{Target: "/locals/h0", Cookie: one})},
 			{Kind: "malformed", Kills: true, Raw: []byte("GET\r\n\r\n")}},
